@@ -78,7 +78,7 @@ let eval inp obs =
   let plain_batched =
     List.for_all (fun l -> match l with ["B"] | ["S"; _] | ["N"] | ["C"] | ["M"] -> true | _ -> false) lay
     && List.exists (fun l -> l = ["M"]) lay
-    && List.for_all (fun o -> match o with ("BW" | "DR") :: _ -> false | _ -> true) ops in
+    && List.for_all (fun o -> match o with ("BW" | "DR" | "LW" | "LR" | "RO") :: _ -> false | _ -> true) ops in
   let top_nokey = (match lay with ["N"] :: _ -> true | _ -> false) in
   (* ---- the theorems' domain: batched / skipkeys / nokeyiserr / cached / readonly layers over the memorydb
      double, used from the top, no batch writes, no layer Write/Reset, no Drop, no re-open.  There every
@@ -123,6 +123,11 @@ let eval inp obs =
   let cached_top = (match lay with ["C"] :: rest ->
       List.for_all (fun l -> match l with ["F"; _] | ["X"; _; _] | ["E"; _] -> false | _ -> true) rest | _ -> false) in
   let refs = ref 1 and must_work = ref false in
+  (* fallible on top (the only one, no real memorydb below, so nothing else panics): a Put/Close/Drop panics
+     exactly when the counter is not positive; every one of them decrements it; Delete is not counted *)
+  let fall_top = (match lay with ["F"; _] :: rest ->
+      List.for_all (fun l -> match l with ["F"; _] | ["m"] -> false | _ -> true) rest | _ -> false) in
+  let cnt = ref (match lay with ["F"; n] :: _ -> int_of_string n | _ -> 0) in
   let logical = ref [] in
   let ended = ref false in
   (try List.iter2 (fun o t ->
@@ -139,6 +144,17 @@ let eval inp obs =
        | ["DR"] -> must_work := false
        | ("G" | "H") :: _ -> if !must_work && t = "e6" then fail "the store is closed although another handle of the cached producer is still open"
        | ("P" | "D") :: _ -> if !must_work && (t = "panic" || t = "e6") then fail "the store is closed although another handle of the cached producer is still open"
+       | _ -> ())
+    end;
+    if fall_top && !ok then begin
+      (match o with
+       | ["SC"; "0"; n] -> cnt := int_of_string n
+       | ["P"; _; _] | ["CL"] | ["DR"] ->
+         let panics = (t = "panic" || (String.length t >= 9 && String.sub t 0 9 = "end:panic")) in
+         if panics <> (!cnt <= 0) then
+           fail (Printf.sprintf "fallible with counter %d: %s answered %s" !cnt (String.concat " " o) t);
+         decr cnt
+       | ["GC"; "0"] -> if t <> "n:" ^ string_of_int !cnt then fail ("GetWriteCount answered " ^ t ^ ", counter is " ^ string_of_int !cnt)
        | _ -> ())
     end;
     if in_domain && !ok then begin
